@@ -125,7 +125,13 @@ class _CheckingJacobian(DictionaryJacobian):
         super().__init__(system)
 
     def _setup(self, system):
-        self._subjacs_info = self._subjacs_info.copy()
+        # Use our own copies of the metadata and values so that the approximated values (and the
+        # uncovered nonzero bookkeeping) don't end up in the system's declared partials, or in the
+        # values already reported for an earlier step.
+        self._subjacs_info = {key: meta.copy() for key, meta in self._subjacs_info.items()}
+        for meta in self._subjacs_info.values():
+            if hasattr(meta['val'], 'copy'):
+                meta['val'] = meta['val'].copy()
 
         self._setup_index_maps(system)
         self._subjacs = self._get_subjacs(system)
